@@ -44,6 +44,7 @@ import (
 	txds "istio.io/istio/pilot/test/xds"
 	"istio.io/istio/pkg/config"
 	"istio.io/istio/pkg/config/schema/collections"
+	"istio.io/istio/pkg/config/schema/kind"
 	"istio.io/istio/pkg/util/sets"
 	"verifharness/internal/quiet"
 	"verifharness/internal/wire"
@@ -409,12 +410,27 @@ func ldsRefs(lds []resource) (routes []string, ecds []string) {
 	return sets.SortedList(rs), sets.SortedList(es)
 }
 
-func (w *world) snapshot() snapshot {
+// incrKinds: the kinds named in the ConfigsUpdated of the incremental rebuilds (one per rebuild, rotating).
+var incrKinds = []kind.Kind{kind.VirtualService, kind.DestinationRule, kind.ServiceEntry, kind.Sidecar, kind.AuthorizationPolicy,
+	kind.Gateway, kind.EnvoyFilter, kind.PeerAuthentication, kind.Telemetry, kind.WasmPlugin, kind.RequestAuthentication}
+
+// snapshot generates everything once. With prev == nil the PushContext is built from scratch
+// (createNewContext); otherwise it is derived from prev as after an update of one config of kind
+// incrKinds[rep] (updateContext re-initialises the indexes of that kind and copies the others) - the
+// state is the same, so the output must be too.
+func (w *world) snapshot(prev *model.PushContext, rep int) (snapshot, *model.PushContext) {
 	env := w.s.Env()
 	w.s.Discovery.Cache.ClearAll()
 	push := model.NewPushContext()
 	push.PushVersion = "verif"
-	push.InitContext(env, nil, nil)
+	if prev == nil {
+		push.InitContext(env, nil, nil)
+	} else {
+		push.InitContext(env, prev, &model.PushRequest{
+			ConfigsUpdated: sets.New(model.ConfigKey{Kind: incrKinds[rep%len(incrKinds)], Name: "does-not-matter", Namespace: "default"}),
+			Reason:         model.NewReasonStats(model.ConfigUpdate),
+		})
+	}
 	out := snapshot{}
 	for _, ps := range proxySpecs {
 		p := setupProxy(w, ps.mk(), push)
@@ -434,7 +450,7 @@ func (w *world) snapshot() snapshot {
 			out[ps.name+":NDS"] = generate(w, p, push, "NDS", nil)
 		}
 	}
-	return out
+	return out, push
 }
 
 func resHash(r resource) string {
@@ -516,8 +532,15 @@ func runCase(c permCase, keepRaw bool) (cr *caseRun) {
 			want = fp
 			wantLines = w.fingerprintLines()
 		}
+		var prev *model.PushContext
 		for r := 0; r < c.r; r++ {
-			snap := w.snapshot()
+			// every third generation derives its PushContext incrementally from the previous one
+			var from *model.PushContext
+			if r%3 == 2 {
+				from = prev
+			}
+			snap, push := w.snapshot(from, k*c.r+r)
+			prev = push
 			if k == 0 && r == 0 {
 				for key := range snap {
 					cr.keys = append(cr.keys, key)
